@@ -140,6 +140,15 @@ static void check_one(const unsigned char *in, size_t len, int e2e) {
             htp_connp_res_data(c2, NULL, a0, sizeof a0 - 1);
             txi = 1;
         }
+        if (n_e2e % 5 == 4 && txi == 0) {
+            /* the server answers (a 408, say) while the request line is still arriving: the rest of the line is split all the same */
+            static const char a1[] = "HTTP/1.1 408 Request Timeout\r\nContent-Length: 0\r\n\r\n";
+            size_t cutp = 4 + len / 2;
+            htp_connp_req_data(c2, NULL, rq.p, cutp);
+            htp_connp_res_data(c2, NULL, a1, sizeof a1 - 1);
+            htp_connp_req_data(c2, NULL, rq.p + cutp, rq.n - cutp);
+            n_e2e_hist++;
+        } else
         htp_connp_req_data(c2, NULL, rq.p, rq.n);
         htp_tx_t *t2 = htp_list_get(c2->conn->transactions, txi);
         if (txi) n_e2e_hist += (t2 != NULL && t2->request_uri != NULL && bstr_len(t2->request_uri) == len);
